@@ -332,6 +332,22 @@ Theorem C16_compose_quorum_honest :
 Proof. exact c_quorum_honest. Qed.
 Print Assumptions C16_compose_quorum_honest.
 
+(* a connection closes while requests to the peer are outstanding: every pending-substream action for
+   the peer is gone (its query was told of the failure), pending_dials and the executor are untouched,
+   and a query that still waits for the peer is owed by an executor future (the request was already on a
+   substream: its read ends with an error or with the 15 s timeout) or by a queued dial — never by nothing *)
+Theorem C16_closed_while_outstanding :
+  forall g m es p,
+  1 <= g_alpha g ->
+  let s := fst (run g (st0 m) es) in
+  aget p (conn s) <> None ->
+  let s' := fst (fst (step g s (EClosed p))) in
+  aget p (peers s') = None /\ futs s' = futs s /\ pdial s' = pdial s /\
+  forall q x, aget q (eng s') = Some x -> In p (waiting x) ->
+    owes_dial s' (negb (is_track x)) q p \/ owes_fut s' (negb (is_track x)) q p.
+Proof. exact closed_discharges. Qed.
+Print Assumptions C16_closed_while_outstanding.
+
 (* the shipped parallelism factor and executor timeouts satisfy what is assumed above *)
 Theorem C16_default_config :
   1 <= V.gen.Consts.PARALLELISM_FACTOR /\ 0 < V.gen.Consts.KAD_READ_TIMEOUT_SECS /\
